@@ -216,7 +216,11 @@ class SpawnProcess(multiprocessing.context.SpawnProcess):
                 msg = os.strerror(exitcode)
                 if exitcode == 9:
                     msg += ': possibly out of memory'
-                raise OSError(exitcode, msg) from exc
+                # Do not raise here: the future must be resolved (below), otherwise
+                # `wait`, `as_completed` and `exception` would never see this
+                # process finish. `join` and `result` raise this error.
+                error = OSError(exitcode, msg)
+                error.__cause__ = exc
 
         self._logger_queue_.put(None)
         self._result_and_error_.close()
